@@ -429,7 +429,10 @@ def note_recount_risk(R, model, pre_reset, ops):
             sid = op["sid"]
             if sid not in high:
                 rs = R._streams.get(sid)
-                high[sid] = rs.receiver.highest_offset if rs is not None else 0
+                if rs is None and sid in R._streams_finished:
+                    high[sid] = VARINT_MAX  # R has discarded the stream and ignores its frames
+                else:
+                    high[sid] = rs.receiver.highest_offset if rs is not None else 0
             end = op["off"] + op["len"] if op["kind"] == "STREAM" else op["final"]
             if sid in reset and reset[sid] > high[sid] and end > high[sid]:
                 model.diag_overcount = True
